@@ -224,3 +224,66 @@ CHECKS = {
   "technique": "Lean 4 proof over regenerated definitions (translator tie) + differential check",
  },
 }
+
+# ---- entries rewritten after the second building session (full kqueue model, joint kernel model, Diff iff) ----
+_INJ = _INJ.replace("every answer (return class,", "datagrams are also sent several to one barrier (reads with the same layout and other names: stale-buffer bugs); every answer (return class,")
+CHECKS["C12"]["text"] = (
+    "Theorems for every reachable state of the LIBRARY model (arbitrary kernel answers): tables_inverse, unique keys, entries keyed by "
+    "their own wd, no operation ever panics; Remove of a listed path issues inotify_rm_watch for exactly its wd and erases both "
+    "entries; a re-pointing Add issues inotify_rm_watch for the old wd (repair of F2). Theorems for every reachable state of the "
+    "JOINT model library + kernel (Model/Kernel: the instance's marks, its notification queue, ascending descriptors; steps Add with the "
+    "kernel answering error / existing descriptor / fresh descriptor, Remove, notifications about live marks, marks dying with their "
+    "inode or file system, the reader handling the oldest record): no_orphan_mark (at EVERY moment every kernel mark is known to "
+    "the library), entry_backed (every known descriptor has a live mark or the record that ends it is queued), quiescent_agree / "
+    "quiescent_watchlist (with the queue read to the end: marks = descriptors in the table = exactly one per WatchList path), "
+    "marks_bounded. " + _INJ + _LIVE +
+    "The kernel side of the joint model is an explicit contract (K0-K3, ascending fresh descriptors, IN_IGNORED after every dead "
+    "mark; queue overflow excluded), validated at run time: /proc/self/fdinfo is compared with both tables after every drain of the "
+    "real queue (both directions), the recorded streams are checked against K2/K4, fresh descriptors are checked to be ascending.")
+CHECKS["C12"]["note"] = _INJ_NOTE + "The kernel part of Model/Kernel is a model of fs/notify/inotify, validated by monitors on the real kernel, not verified."
+CHECKS["C12"]["technique"] = ("Lean 4 invariant proofs over all operation sequences of the library model and of a joint library+kernel model "
+                               "+ differential correspondence + fdinfo-vs-tables / kernel-contract monitors on the real kernel")
+CHECKS["C17"]["text"] = (
+    "Theorems over the FULL model of backend_kqueue.go (Model/KqFull: addWatch incl. symlink branch, register, watches.*, rm with its "
+    "children loop, Close, the readEvents loop body, dirChange, sendCreateIfNew, internalWatch; everything the code asks its "
+    "environment - Lstat, Readlink, ReadDir+Info, unix.Open, kevent batches - is a tape of answers, and the theorems hold for EVERY "
+    "tape): in every state reachable by any sequence of Add / Remove / reader activity / Close the descriptors opened and not closed "
+    "are exactly the wd-table keys, every entry carries its own key, is listed under its own CLEAN name and has a knote "
+    "(full_fds_are_table, full_entries_listed); Close leaves no descriptor, no table entry and no knote (full_close_releases_all; the "
+    "proof needs clean keys: finding F15, an unclean absolute link target, was found this way and repaired); Remove of a watched path "
+    "closes its descriptor, drops its entry and never adds one (full_remove_releases). The same statements over the older tables-only "
+    "model are kept. Tie: the real backend_kqueue.go compiled on Linux against a simulated kqueue over REAL descriptors and a forwarding "
+    "stand-in for package os that records every answer; after every step the tape is replayed through the compiled Lean model and "
+    "return class, event and error SEQUENCE, all five tables, descriptors really open, knotes and WatchList are compared; plus "
+    "Go-side descriptor accounting and table-vs-filesystem monitors. Partial twice: simulated kernel; no real BSD/macOS available.")
+CHECKS["C17"]["technique"] = ("Lean 4 Hoare-style invariant proofs over a full executable model of the kqueue backend (environment as an oracle tape) "
+                               "+ step-by-step differential correspondence with the real backend running on a simulated kqueue")
+CHECKS["C18"]["text"] = (
+    "Theorems over the model of the seen-set logic: dirChange reports exactly the listed entries not yet seen, under dir/entry; entries "
+    "marked at Add time are never reported; a second change with the same listing reports nothing (Create once); after the Remove "
+    "notification un-marks a name the next listing reports it again. Tie: the FULL executable model of the backend (Model/KqFull, see "
+    "C17) is run on the oracle tape of every step and its event and error SEQUENCES are compared with what the real backend delivered "
+    "(C18 owns these two fields of the comparison); plus an independent event oracle per step (Create once per new entry, "
+    "Write/Chmod/Remove/Rename named under the user's spelling, overwrite-by-rename = Remove+Create, nothing for pre-existing entries "
+    "incl. FIFOs - F7a repaired), coalesced batches, and the replay of the repository's testdata scripts against upstream's recorded "
+    "kqueue expectations.")
+CHECKS["C18"]["technique"] = ("Lean 4 proofs over the seen-set model + differential correspondence of event sequences between a full executable model "
+                               "of the backend and the real backend on a simulated kqueue + per-step event oracle")
+CHECKS["C20"]["text"] = (
+    "Theorems (all inputs): splitLines is injective; GetOpCodes(a, b) ALWAYS passes the executable check validOps (contiguous tiling of "
+    "both texts, equal ranges really equal: findLongestMatch returns a block of equal lines inside its window, matchingBlocks an ordered "
+    "chain of such blocks) and any such list applied to the first text yields the second (diff_script_turns_a_into_b); an empty diff is "
+    "produced ONLY for equal texts (Diff_empty_only_if_equal) and ALWAYS for equal texts (flm_self: matched against itself a text is one "
+    "block because the DP walks the diagonal; Diff_empty_iff_equal); context trimming leaves at most n lines at the start, the end and "
+    "both sides of a split; the hunk-header range format. Not proved: the hunk rendering. Tie: diff.go is copied verbatim at check time "
+    "into a scratch package; blocks, opcodes, groups and final text compared with the model exhaustively over a 3-letter alphabet up "
+    "to length 4 (5 thorough) and on random long sequences; an independent Go monitor applies the textual diff (headers agree with "
+    "bodies, <= 3 context lines, result = second text, empty iff equal after TrimSpace). DiffMatch: partial (regexp/placeholders "
+    "exercised only).")
+CHECKS["C20"]["technique"] = "Lean 4 proofs for all inputs (edit-script validity, empty diff iff equal texts) + exhaustive differential correspondence"
+CHECKS["C05"]["text"] = CHECKS["C05"]["text"].replace(
+    "Tie D: genuine-mode scenarios under a watchdog.",
+    "The three functions that run wholly under mu (handleEvent, register, remove) are compared through Skel.quiet (locks, sends, closes, "
+    "syscalls, protocol calls and the conditionals around them). Tie D: genuine-mode scenarios under a watchdog, plus injected "
+    "Watchers fed one record that leaves a value pending (unmount, ignored, delete_self, move_self with the mark gone, overflow "
+    "marker, unknown wd) x consumer behaviours.")
